@@ -131,3 +131,23 @@ Theorem C19_history_capacity_nonvacuous :
   map pg_w2s (dv_known (run (clear 2000) overflow_ops)) = [ [1; 2; 3] ].
 Proof. exact (conj ex_ops_lens former_overflow_witness). Qed.
 Print Assumptions C19_history_capacity_nonvacuous.
+
+(* ------------------------------------------------------------------------------------------------------------- *)
+(* REMARK — NOT PART OF PROPERTY C19.  C19 is a safety property (a refusal is always safe).  The corresponding
+   liveness statement "the placement refuses only if no safe placement exists" is false for the code as it is: the
+   index mix-up in the second loop (position in the reversed unsorted free capacities used as position in the free
+   slots sorted by descending capacity) misses a fitting slot, and with a tight total capacity the upload is refused
+   with `Fragmentation` although overwriting slot 2 satisfies all four clauses.  Recorded as an observation only; the
+   real function shows the same behaviour (literal case in harness/props/c19.py). *)
+Require Import QV.C19.ProofsLive.
+Definition C19_liveness_statement : Prop :=
+  forall mem nh nl, wf_call mem nh nl -> Forall (fun r => 0 <= r) (m_refs mem) ->
+    (exists d, decision_ok mem nh nl d) -> exists d, find_place mem nh nl = Ok d.
+Theorem C19_liveness_refuted :
+  exists mem nh nl, wf_call mem nh nl /\ Forall (fun r => 0 <= r) (m_refs mem) /\
+    (exists d, decision_ok mem nh nl d) /\ find_place mem nh nl = Err Fragmentation.
+Proof. exact liveness_refuted. Qed.
+Print Assumptions C19_liveness_refuted.
+Theorem C19_liveness_statement_false : ~ C19_liveness_statement.
+Proof. exact liveness_statement_false. Qed.
+Print Assumptions C19_liveness_statement_false.
